@@ -505,8 +505,14 @@ func genCase(t *rapid.T, stratum int) routeCase {
 		req("group", "s2g0")
 		req("txn", "s2t0")
 		if ch, ok := genChangeOf(t, m, "move_coord", "s2mc"); ok {
-			add(ch...)
 			k := ch[0].Key
+			// the same key is used before the move as well: whatever the transport remembers about its coordinator is stale afterwards
+			if strings.HasPrefix(k, "tx") {
+				add(step{Op: "txn", Api: rapid.SampledFrom(txnApis).Draw(t, "s2preapi"), Key: k, Par: 1})
+			} else {
+				add(step{Op: "group", Api: rapid.SampledFrom([]string{"offsetcommit", "offsetfetch", "heartbeat"}).Draw(t, "s2preapi"), Key: k, Par: 1})
+			}
+			add(ch...)
 			if strings.HasPrefix(k, "tx") {
 				add(step{Op: "txn", Api: rapid.SampledFrom(txnApis).Draw(t, "s2api"), Key: k, Par: 1})
 			} else {
